@@ -1,7 +1,7 @@
 (* C17 property theorems only.  Each is closed by [exact] of a lemma of
    Proofs_C17 and followed by Print Assumptions. *)
 From Coq Require Import List NArith ZArith Bool PeanoNat.
-From Verif Require Import Common.Str Common.Json C17.Model_C17 C17.Proofs_C17 C17.AsmProofs_C17.
+From Verif Require Import Common.Str Common.Json C17.Model_C17 C17.Proofs_C17 C17.AsmProofs_C17 C17.HdrProofs_C17.
 Import ListNotations.
 
 (* every example of the extracted list occurs unchanged in some combination
@@ -219,3 +219,100 @@ Theorem C17_assembly_hypotheses_satisfiable :
      [(s_path_parameters, Some [(s_id, JStr [59;105;100;61;53]%N)])]].
 Proof. exact assembly_hypotheses_satisfiable. Qed.
 Print Assumptions C17_assembly_hypotheses_satisfiable.
+
+(* ---- add_examples on cases with their real header dictionaries (Model_C17 section 8; added after seed
+   C17_d_invalid_headers_accumulated) ---- *)
+
+(* the loop of add_examples in closed form, for all case lists: attached are exactly the cases without an
+   invalid header of their OWN, in order; the mark holds the invalid headers of the last case that has some *)
+Theorem C17_add_examples_per_case : forall cs,
+  add_examples_h OwnHeaders cs =
+  {| hr_added := filter (fun c => negb (case_bad c)) cs;
+     hr_mark := match last_opt (filter case_bad cs) with Some c => Some (case_invalid c) | None => None end |}.
+Proof. exact add_examples_h_own. Qed.
+Print Assumptions C17_add_examples_per_case.
+
+(* the two-boolean model of section 4 (filter / existsb) is the abstraction of this loop *)
+Theorem C17_add_examples_refines : forall cs,
+  abs_result (add_examples_h OwnHeaders cs) = add_examples (GenCases (map abs_case cs)).
+Proof. exact add_examples_h_refines. Qed.
+Print Assumptions C17_add_examples_refines.
+
+(* an example is dropped only if EVERY case that carries it has an invalid header of its own, and then the
+   mark is set (run_test reports an error for the operation) - all case lists, all examples *)
+Theorem C17_dropped_only_with_own_invalid_header : forall cs e,
+  ~ sent (add_examples_h OwnHeaders cs) e ->
+  forall c, In c cs -> carries (hc_combo c) e ->
+    case_bad c = true /\ hr_mark (add_examples_h OwnHeaders cs) <> None.
+Proof. exact dropped_only_with_own_invalid_header. Qed.
+Print Assumptions C17_dropped_only_with_own_invalid_header.
+
+(* the same over all example lists, through produce_combinations; generate_one is the foreign function mk,
+   assumed only to keep the combination it is given: every example of the list is carried by an attached case,
+   or every case carrying it (there is one) has an invalid header of its own and the mark is set *)
+Theorem C17_example_sent_or_own_case_invalid : forall exs (mk : nat -> combo -> hcase) e,
+  (forall i c, hc_combo (mk i c) = c) ->
+  containers_ok exs = true -> In e exs ->
+  let cases := imap mk 0 (produce_combinations exs) in
+  sent (add_examples_h OwnHeaders cases) e \/
+  ((exists c, In c cases /\ carries (hc_combo c) e) /\
+   (forall c, In c cases -> carries (hc_combo c) e -> case_bad c = true) /\
+   hr_mark (add_examples_h OwnHeaders cases) <> None).
+Proof. exact example_sent_or_own_case_invalid. Qed.
+Print Assumptions C17_example_sent_or_own_case_invalid.
+
+(* no attached case has an invalid header *)
+Theorem C17_sent_case_valid : forall cs c nv hs,
+  In c (hr_added (add_examples_h OwnHeaders cs)) -> hc_headers c = Some hs -> In nv hs -> header_invalid nv = false.
+Proof. exact sent_case_valid. Qed.
+Print Assumptions C17_sent_case_valid.
+
+(* the reported error blames nothing valid: the mark is not empty, and it is the set of invalid headers of one
+   dropped case *)
+Theorem C17_mark_sound : forall cs inv,
+  hr_mark (add_examples_h OwnHeaders cs) = Some inv ->
+  inv <> [] /\ exists c, In c cs /\ case_bad c = true /\ inv = case_invalid c /\
+                         forall nv, In nv inv -> header_invalid nv = true.
+Proof. exact mark_sound. Qed.
+Print Assumptions C17_mark_sound.
+
+(* every invalid header of every dropped case is named by the error - when at most one case is invalid *)
+Theorem C17_dropped_reason_named_partial : forall cs, single_bad_case cs = true ->
+  forall c nv, In c cs -> In nv (case_invalid c) -> named (add_examples_h OwnHeaders cs) nv.
+Proof. exact dropped_reason_named_partial. Qed.
+Print Assumptions C17_dropped_reason_named_partial.
+
+(* ... refuted beyond: Mark.set overwrites, with two invalid cases the invalid header of the first is neither
+   sent nor named (finding F8) *)
+Theorem C17_dropped_reason_named_refuted :
+  exists cs c nv, In c cs /\ In nv (case_invalid c) /\ ~ named (add_examples_h OwnHeaders cs) nv.
+Proof. exact dropped_reason_named_refuted. Qed.
+Print Assumptions C17_dropped_reason_named_refuted.
+
+(* SENTINEL rule, not the code (seed C17_d: one dict accumulated over all cases, tested per case): header
+   examples a / b-LF-c / g with query examples 1 / 2 / 3 - the third case has no invalid header, carries the
+   header example g, and is dropped (one case attached instead of two); the rule of the code sends it *)
+Theorem C17_accumulated_headers_refuted :
+  exists exs mk c e,
+    (forall i x, hc_combo (mk i x) = x) /\ containers_ok exs = true /\ In e exs /\
+    In c (imap mk 0 (produce_combinations exs)) /\ carries (hc_combo c) e /\ case_bad c = false /\
+    ~ sent (add_examples_h AccumulatedHeaders (imap mk 0 (produce_combinations exs))) e /\
+    sent (add_examples_h OwnHeaders (imap mk 0 (produce_combinations exs))) e /\
+    length (hr_added (add_examples_h AccumulatedHeaders (imap mk 0 (produce_combinations exs)))) = 1 /\
+    length (hr_added (add_examples_h OwnHeaders (imap mk 0 (produce_combinations exs)))) = 2.
+Proof. exact accumulated_headers_refuted. Qed.
+Print Assumptions C17_accumulated_headers_refuted.
+
+(* non-vacuity: three cases, the middle one invalid; the validity predicate separates the classes *)
+Theorem C17_header_hypotheses_satisfiable :
+  map hc_id (hr_added (add_examples_h OwnHeaders cases_acc)) = [0; 2] /\
+  hr_mark (add_examples_h OwnHeaders cases_acc) = Some [(s_tag, HStr [98;10;99]%N)] /\
+  single_bad_case cases_acc = true /\
+  map (sentb (add_examples_h OwnHeaders cases_acc)) exs_acc = [true; false; true; true; false; true] /\
+  single_bad_case cs_two_bad = false /\
+  map header_invalid [(s_tag, HStr [97;32]%N); (s_tag, HStr []); (s_tag, HStr [32;97]%N); (s_tag, HStr [97;13]%N);
+                      (s_tag, HStr [97;10;32;98]%N); (s_tag, HStr [160;97]%N); (s_tag, HStr [97;160]%N);
+                      (s_tag, HStr [256]%N); (s_tag, HNonStr 5); ([88;58]%N, HStr [97]%N)]
+  = [false; false; true; true; true; true; false; true; true; true].
+Proof. exact header_hypotheses_satisfiable. Qed.
+Print Assumptions C17_header_hypotheses_satisfiable.
